@@ -286,7 +286,7 @@ class Gen:
         one domain throughout the operands an operation combines."""
         t = op["op"]
         maps = []
-        if t in ("binary", "approximate"):
+        if t in ("binary", "approximate", "integrate"):
             maps = [dict(self.types[op["a"]].inputs), dict(self.types[op["b"]].inputs)]
         elif t == "stack":
             maps = [dict(self.types[p].inputs) for p in op["parts"]]
@@ -402,6 +402,7 @@ class Gen:
             ("getslice", 0.5),
             ("opcat", 0.5),
             ("approximate", 0.4),
+            ("integrate", 0.6),
         ]
         if self.allow is not None:
             kinds = [(k, w) for k, w in kinds if k in self.allow]
@@ -601,6 +602,24 @@ class Gen:
             ta = self.types[a]
             b = self.pick(lambda v: v.output == ta.output) or a
             return self.emit({"op": r.choice(["opcat", "opstack"]), "parts": [a, b], "axis": r.choice([0, -1])})
+        if kind == "integrate":
+            # Integrate(log_measure, integrand, vars) over integer inputs: sum over vars of exp(log_measure) * integrand;
+            # the variables may occur in the measure, in the integrand, or in one of them only
+            if self.family_name not in ("log", "ring"):
+                return None
+            a = self.pick(lambda v: fv(v) and v.output == Real)
+            b = self.pick(fv)
+            if a is None or b is None:
+                return None
+            ints = {}
+            for v in (self.types[a], self.types[b]):
+                for n, d in v.inputs.items():
+                    if d.dtype != "real":
+                        ints[n] = d.size
+            if not ints or any(d.dtype == "real" for v in (self.types[a], self.types[b]) for d in v.inputs.values()):
+                return None
+            names = r.sample(sorted(ints), r.randint(1, len(ints)))
+            return self.emit({"op": "integrate", "a": a, "b": b, "vars": names})
         if kind == "approximate":
             if self.family_name not in ("log", "tropical"):
                 return None
@@ -689,8 +708,10 @@ def gen_semiring(r):
             leaves.append(out)
     if len(leaves) < 2:
         return g.generate(4), g.family_name
-    # product in a random association order
+    # product in a random association order; sometimes one factor occurs twice (the same object)
     pool = list(leaves)
+    if r.random() < 0.3:
+        pool.insert(r.randrange(len(pool) + 1), r.choice(leaves))
     while len(pool) > 1:
         i = r.randrange(len(pool) - 1) if r.random() < 0.7 else 0
         a, b = pool[i], pool[i + 1]
